@@ -722,8 +722,17 @@ OpTaproot(v, h) ==
               IF Bad(b) THEN b
               ELSE CheckSigCore(b, h, U8(b.r[1]), b.p[2], b.p[3], LAMBDA c, ok : Put(c, Bool(ok)))
 
-\* CHECK_TRANSFER: operands are popped as documented; the contract's verdict is
-\* the embedder's (hint)
+\* CHECK_TRANSFER: id, amount, constraint, destination, count, then count sources, then count proofs are popped
+\* (sources and proofs in corresponding order); proof i is checked by itself, against source i and the destination,
+\* and against the constraint when one is given; the aggregate of all proofs for the destination must reach the
+\* amount.  What a proof *means* is the contract's business: the harness installs a reference contract whose four
+\* functions are the total functions below, so that which item is paired with which is decided here.
+RefVP(p) == p # <<>> /\ p[1] % 2 = 1                          \* verify_txn_proof
+RefVT(p, s) == p # <<>> /\ s # <<>> /\ p[Len(p)] = s[1]        \* verify_transfer(proof, source, destination)
+RefVC(p, c) == p # <<>> /\ c[1] <= p[1]                        \* verify_txn_constraint(proof, constraint), c non-empty
+RefAgg(p) == IF Len(p) >= 2 THEN p[2] ELSE 0                  \* contribution of a proof to the destination's aggregate
+RECURSIVE SumAgg(_, _)
+SumAgg(ps, i) == IF i > Len(ps) THEN 0 ELSE RefAgg(ps[i]) + SumAgg(ps, i + 1)
 OpCheckTransfer(v, h) ==
     LET a == Pop(Pop(Pop(PopInt(Pop(v))))) IN  \* id, amount, constraint, destination, count
     IF Bad(a) THEN a
@@ -732,7 +741,11 @@ OpCheckTransfer(v, h) ==
          ELSE LET b == PopN(a, 2 * ToInt(cnt)) IN
               IF Bad(b) THEN b
               ELSE IF ~TT(b).contr \/ b.p[1] \notin b.cfg.contracts THEN Raise(b, SEE)
-              ELSE WithPrim(b, h, "transfer", b.p, LAMBDA c, r : Put(c, r[1]))
+              ELSE LET n == ToInt(cnt)
+                       src == [i \in 1..n |-> b.p[5 + i]]
+                       prf == [i \in 1..n |-> b.p[5 + n + i]]
+                       ok == \A i \in 1..n : RefVP(prf[i]) /\ RefVT(prf[i], src[i]) /\ (b.p[3] = <<>> \/ RefVC(prf[i], b.p[3]))
+                   IN Put(b, IF ok /\ Leq(DecS(b.p[2]), FromNat(SumAgg(prf, 1))) THEN <<255>> ELSE <<0>>)
 
 \* unassigned opcode: one signed count byte, remove that many items
 OpNop(v) == LET a == Rd(v, 1) IN
